@@ -2,14 +2,33 @@ PROP = dict(
     coq=["Url/UrlHarness.vo", "Url/Lit.vo"],
     legs=[
         dict(driver="url", binary="zurl", quick=6000, thorough=120000, shard=400,
-             monitors=["deterministic (same answer on 5 fresh evaluations)",
+             monitors=["deterministic (same answer on 5 fresh evaluations, parent's String() called before or not)",
                        "idempotent (canonical string is a fixed point, modulo quote stripping)",
-                       "shape_ok (http/https, dotted non-loopback host, absolute path, no fragment, no dot segment)",
+                       "shape_ok (http/https, dotted non-loopback host, absolute path, no fragment, no dot segment, no panic)",
                        "query_order_kept (parameters of a well-formed query keep order and multiplicity)",
                        "resolve_keeps_origin (a reference without scheme and authority keeps the parent's scheme, credentials, host and port)",
                        "resolve_in_directory (a path-relative reference without dot segments lands in the parent's directory)"]),
     ],
-    partial="The ada (WHATWG) parser, net/url and x/net/idna are oracles: the theorems are about the reference normaliser on the reference grammar (URL ASTs); outside the grammar only the monitored sample speaks.",
-    assumptions=["on the reference grammar ada + net/url behave as the reference normaliser says (validated on every generated in-grammar URL by the driver)"],
-    level_text="Theorems for all URLs/references of the reference grammar and all byte strings (escape/query).",
+    partial="The ada (WHATWG) parser, net/url and x/net/idna are oracles: the theorems are about the reference normaliser "
+            "(coq/Url/Resolve.v) on URL ASTs of the reference grammar (coq/Url/RefUrl.v: in_grammar); text -> AST parsing is "
+            "bypassed by generating ASTs and rendering them. Outside the grammar (IDN, IPv6, numeric hosts, backslashes, "
+            "control bytes, bytes that net/url re-escapes in a path) there is no theorem, only the monitored sample. "
+            "The model follows the code after fixes/C09-query-order.diff and fixes/C09-base-choice.diff; the code as found is kept "
+            "as reencode_orig / normalize_orig with refutation lemmas. Three third-party deviations are known findings "
+            "(ada-dotpath, invalid-utf8, netpath-reescape).",
+    assumptions=["on the reference grammar ada + net/url behave as the reference normaliser says (URL standard: lower-casing, default port, "
+                 "credential clean-up, dot-segment removal, special-query percent-encoding; net/url keeps a valid raw path verbatim) - "
+                 "validated against the real functions on every generated in-grammar case (98.8% of the grammar stream)",
+                 "'loopback' is what the code checks: the canonical hostname is neither \"localhost\" nor \"127.0.0.1\" and contains a dot"],
+    level_text="29 theorems, closed under the global context. For ALL byte strings: QueryUnescape(QueryEscape s) = s; parse(encode ps) = ps "
+               "(order, multiplicity); ada's query encoding is invisible to url.ParseQuery. For ALL URL ASTs, parents and reference forms: "
+               "the normaliser is a function and independent of whether String() was already called on the parent; an accepted result "
+               "normalised again with any parent is itself; every accepted result is http/https with a dotted host other than localhost/127.0.0.1, "
+               "no fragment, an absolute path and no dot segment (AST level unconditionally, text level with the monitor's own predicate on the grammar, "
+               "inductively along parent chains); closed forms for absolute, scheme-relative, path-absolute, path-relative, query-only and "
+               "fragment-only references; RFC 3986 5.2.4 as rewriting rules; query parameters kept through the whole normaliser. "
+               "Refuted for the code as found: map-order encodeQuery (determinism, order), base choice (credentials dropped, %2f-first reference). "
+               "Model tied to NormalizeURL + URL.String() by a differential check on generated ASTs (grandparent/parent/reference, 5 fresh evaluations "
+               "each) and six monitors on both the grammar and a mutated text stream, on every run.",
+    technique="Coq proof about an executable reference normaliser over URL ASTs + differential testing against NormalizeURL/URL.String() with monitors",
 )
